@@ -160,7 +160,20 @@ func (u *Unit) build() {
 			u.unsupportedf("axiom %q: %v", ax.Text, err)
 			continue
 		}
+		from := c.Len()
 		c.Assume(t)
+		// an axiom is only put into a query that mentions one of its function symbols elsewhere
+		syms := map[string]bool{}
+		callsOf(ax.E, syms)
+		ar := axiomRange{from: from, to: c.Len()}
+		for s := range syms {
+			switch s {
+			case "len", "content", "old", "ite":
+			default:
+				ar.syms = append(ar.syms, "("+s+" ")
+			}
+		}
+		u.axioms = append(u.axioms, ar)
 	}
 	entry := st.clone()
 	u.entrySt = entry
@@ -216,7 +229,43 @@ func (u *Unit) build() {
 
 func (u *Unit) script(o *Obligation, active map[string]bool) string {
 	var b strings.Builder
-	for _, l := range u.c.lines[:o.Prefix] {
+	skip := map[int]bool{}
+	for _, ar := range u.axioms {
+		if len(ar.syms) == 0 || ar.to > o.Prefix {
+			continue
+		}
+		used := false
+		for i, l := range u.c.lines[:o.Prefix] {
+			if i >= ar.from && i < ar.to || strings.HasPrefix(l, "(declare-") {
+				continue
+			}
+			for _, s := range ar.syms {
+				if strings.Contains(l, s) {
+					used = true
+					break
+				}
+			}
+			if used {
+				break
+			}
+		}
+		if !used {
+			for _, s := range ar.syms {
+				if strings.Contains(o.Goal.S, s) {
+					used = true
+				}
+			}
+		}
+		if !used {
+			for i := ar.from; i < ar.to; i++ {
+				skip[i] = true
+			}
+		}
+	}
+	for i, l := range u.c.lines[:o.Prefix] {
+		if skip[i] {
+			continue
+		}
 		b.WriteString(l)
 		b.WriteByte('\n')
 	}
@@ -233,6 +282,13 @@ func (u *Unit) script(o *Obligation, active map[string]bool) string {
 	}
 	fmt.Fprintf(&b, "(assert (not %s))\n", o.Goal.S)
 	return b.String()
+}
+
+// scriptFor is script with the goal replaced by one of its conjuncts.
+func (u *Unit) scriptFor(o *Obligation, active map[string]bool, goal string) string {
+	o2 := *o
+	o2.Goal = Term{goal, SBool}
+	return u.script(&o2, active)
 }
 
 var flagDeclCache sync.Map
@@ -268,6 +324,32 @@ func (u *Unit) solveAll(obls []*Obligation, active map[string]bool) {
 			}
 			r := Solve(u.script(o, active), nil, to, u.eng.requireAll && !o.Auto)
 			o.Status, o.Solver, o.Ms, o.Output = r.Status, r.Solver, r.Ms, r.Output
+			if !o.Auto && r.Status != "unsat" && r.Status != "sat" {
+				// undecided: try the conjuncts of the goal one at a time (an equivalent set of goals)
+				if parts := splitGoal(o.Goal.S); parts != nil {
+					all := true
+					var ms int64
+					solver := ""
+					for _, p := range parts {
+						pr := Solve(u.scriptFor(o, active, p), nil, to, false)
+						ms += pr.Ms
+						if pr.Status == "sat" {
+							o.Status, o.Solver, o.Output = "sat", pr.Solver, pr.Output
+							all = false
+							break
+						}
+						if pr.Status != "unsat" {
+							all = false
+							break
+						}
+						solver = pr.Solver
+					}
+					o.Ms += ms
+					if all {
+						o.Status, o.Solver = "unsat", fmt.Sprintf("%s (goal split in %d)", solver, len(parts))
+					}
+				}
+			}
 		}()
 	}
 	wg.Wait()
